@@ -10,6 +10,7 @@ import (
 	"path/filepath"
 	"reflect"
 	"runtime"
+	"runtime/debug"
 	"strings"
 	"sync"
 	"testing"
@@ -861,28 +862,69 @@ func execCase[T any, TP ez.ConfigWithConfigPath[T]](c C18Case, td *typeDef, bubb
 	}
 	defer finish()
 
+	cfgArg := TP(defaults)
+	call := func() (*dials.Dials[T], error) {
+		switch c.Entry {
+		case "typed":
+			switch c.Format {
+			case "json":
+				return ez.JSONConfigEnvFlag[T, TP](ctx, cfgArg, params)
+			case "yaml":
+				return ez.YAMLConfigEnvFlag[T, TP](ctx, cfgArg, params)
+			case "toml":
+				return ez.TOMLConfigEnvFlag[T, TP](ctx, cfgArg, params)
+			default:
+				return ez.CueConfigEnvFlag[T, TP](ctx, cfgArg, params)
+			}
+		case "ext":
+			return ez.FileExtensionDecoderConfigEnvFlag[T, TP](ctx, cfgArg, params)
+		case "factory":
+			return ez.ConfigFileEnvFlag[T, TP](ctx, cfgArg, decoderFor, params)
+		default:
+			return ez.ConfigFileEnvFlagDecoderFactoryParams[T, TP](ctx, cfgArg,
+				func(path string, _ ez.Params[T]) dials.Decoder { return decoderFor(path) }, params)
+		}
+	}
 	var d *dials.Dials[T]
 	var callErr error
-	cfgArg := TP(defaults)
-	switch c.Entry {
-	case "typed":
-		switch c.Format {
-		case "json":
-			d, callErr = ez.JSONConfigEnvFlag[T, TP](ctx, cfgArg, params)
-		case "yaml":
-			d, callErr = ez.YAMLConfigEnvFlag[T, TP](ctx, cfgArg, params)
-		case "toml":
-			d, callErr = ez.TOMLConfigEnvFlag[T, TP](ctx, cfgArg, params)
-		default:
-			d, callErr = ez.CueConfigEnvFlag[T, TP](ctx, cfgArg, params)
+	if bubble {
+		// a call that never returns is a deadlock of the bubble (reported by runC18)
+		d, callErr = call()
+	} else {
+		// real time: the call runs on its own goroutine so that a call that
+		// never returns is decided by the goroutine-dump rule, not by a hang
+		type callResult struct {
+			d     *dials.Dials[T]
+			err   error
+			panic string
 		}
-	case "ext":
-		d, callErr = ez.FileExtensionDecoderConfigEnvFlag[T, TP](ctx, cfgArg, params)
-	case "factory":
-		d, callErr = ez.ConfigFileEnvFlag[T, TP](ctx, cfgArg, decoderFor, params)
-	default:
-		d, callErr = ez.ConfigFileEnvFlagDecoderFactoryParams[T, TP](ctx, cfgArg,
-			func(path string, _ ez.Params[T]) dials.Decoder { return decoderFor(path) }, params)
+		done := make(chan callResult, 1)
+		go func() {
+			var r callResult
+			defer func() {
+				if p := recover(); p != nil {
+					st := string(debug.Stack())
+					if len(st) > 4000 {
+						st = st[:4000]
+					}
+					r.panic = fmt.Sprintf("%v\n%s", p, st)
+				}
+				done <- r
+			}()
+			r.d, r.err = call()
+		}()
+		select {
+		case r := <-done:
+			if r.panic != "" {
+				return vrt.KeyedViolationf("panic", "the entry point panicked: %s", r.panic).With(nonTrivial, labels...)
+			}
+			d, callErr = r.d, r.err
+		case <-time.After(10 * time.Second):
+			if allParked3() {
+				return vrt.KeyedViolationf("entry-hang", "the entry point has not returned after 10 s and every library goroutine (including the call) is parked in three dumps 300 ms apart: it can never return\n%s", libDump()).With(nonTrivial, labels...)
+			}
+			return vrt.Discardf("inconclusive: entry point not returned after 10 s while library goroutines are still runnable")
+		}
 	}
 
 	// immediately after return: nothing may be pending on Events()
@@ -1243,6 +1285,22 @@ func libGoroutines() (total, busy int) {
 		}
 	}
 	return total, busy
+}
+
+// libDump returns the stacks of the library goroutines (for messages).
+func libDump() string {
+	n := runtime.Stack(stackBuf, true)
+	var b strings.Builder
+	for k, blk := range strings.Split(string(stackBuf[:n]), "\n\n") {
+		if k > 0 && (strings.Contains(blk, "github.com/vimeo/dials") || strings.Contains(blk, "github.com/fsnotify/fsnotify")) {
+			b.WriteString(blk + "\n\n")
+		}
+	}
+	out := b.String()
+	if len(out) > 6000 {
+		out = out[:6000]
+	}
+	return out
 }
 
 // settle waits until every library goroutine is parked in two consecutive dumps.
